@@ -599,7 +599,42 @@ def root({sizes}A: f32[{m}, {n}], y: f32[{m}], z: f32[{n}]):
     return GenProgram(HEADER + body, "root", ["rowsum"], [], {"template": "sig_calls", "prefer_ops": ["transpose", "transpose", "partial_eval", "set_window", "set_precision", "inline"]})
 
 
-ALL = [t_temp2d, t_temp2d_call, t_two_loops, t_reduce_const, t_sliding, t_two_temps, t_split_range, t_writes, t_matmul, t_conv1d, t_blur, t_name_clash, t_config_loop, t_mod_trip, t_quasi, t_config_arg, t_config_first_iter, t_dup_blocks, t_nested_windows, t_sig_calls]
+def t_adjacent_loops(rng):
+    """two (three) adjacent loops over contiguous ranges whose bodies are equal, or equal up to a
+    prefix / one operand / the iterator's spelling: what join_loops, fuse and remove_loop compare"""
+    mid = _c(rng, [2, 3, 4])
+    hi = mid + _c(rng, [2, 3, 4])
+    v1 = _c(rng, ["i", "i", "j"])
+    v2 = _c(rng, [v1, v1, "k"])
+    s1 = ["x[{v}] = 1.0", "y[{v}] = x[{v}] * 2.0", "z[{v}] += y[{v}]"]
+    n1 = _c(rng, [1, 2, 3])
+    kind = _c(rng, ["same", "same", "prefix", "longer", "operand", "gap"])
+    b1 = s1[:n1]
+    if kind == "same":
+        b2 = list(b1)
+    elif kind == "prefix":
+        b2 = b1[: max(1, n1 - 1)] if n1 > 1 else b1 + [s1[1]]
+    elif kind == "longer":
+        b2 = b1 + [s1[n1 % 3].replace("1.0", "3.0")]
+    elif kind == "operand":
+        b2 = [t.replace("1.0", "0.5").replace("* 2.0", "* 4.0") for t in b1]
+    else:
+        b2 = list(b1)
+    lo2 = mid + (1 if kind == "gap" else 0)
+    body1 = "\n        ".join(t.format(v=v1) for t in b1)
+    body2 = "\n        ".join(t.format(v=v2) for t in b2)
+    third = f"\n    for {v1} in seq({hi}, {hi + 2}):\n        " + "\n        ".join(t.format(v=v1) for t in b1) if rng.random() < 0.3 else ""
+    body = f"""@proc
+def root(x: f32[{hi + 3}], y: f32[{hi + 3}], z: f32[{hi + 3}]):
+    for {v1} in seq(0, {mid}):
+        {body1}
+    for {v2} in seq({lo2}, {hi}):
+        {body2}{third}
+"""
+    return GenProgram(HEADER + body, "root", [], [], {"template": "adjacent_loops", "prefer_ops": ["join_loops", "join_loops", "fuse", "remove_loop", "reorder_stmts"]})
+
+
+ALL = [t_temp2d, t_temp2d_call, t_two_loops, t_reduce_const, t_sliding, t_two_temps, t_split_range, t_writes, t_matmul, t_conv1d, t_blur, t_name_clash, t_config_loop, t_mod_trip, t_quasi, t_config_arg, t_config_first_iter, t_dup_blocks, t_nested_windows, t_sig_calls, t_adjacent_loops]
 
 
 def any_template(rng):
